@@ -978,9 +978,14 @@ class FileLong(Entry):
             return "3"          # a 180-degree match without limit returns every pair
         rts = [float("%.16g" % x) for _, _, x in mem]
         E = scale_exp(c, [x for _, _, x in mem] + [x for _, _, x in back] + rts)
+        def chunks(items):
+            # a list literal nests as deep as it is long (parser stack): concatenate literals of 1000
+            items = list(items)
+            return "(concat [" + "; ".join("[" + "; ".join(items[k:k + 1000]) + "]" for k in range(0, len(items), 1000)) + "])"
+
         def rws(rows):
-            return "[" + "; ".join("rowi %d %d %s" % (a, b, limbs(_units(x, E))) for a, b, x in rows) + "]"
-        return "v_file_long %s %s [%s] %s" % (rws(mem), rws(back), "; ".join(limbs(_units(x, E)) for x in rts), zl(cnt))
+            return chunks("rowi %d %d %s" % (a, b, limbs(_units(x, E))) for a, b, x in rows)
+        return "v_file_long %s %s %s %s" % (rws(mem), rws(back), chunks(limbs(_units(x, E)) for x in rts), zl(cnt))
 
     def nontrivial(self, c, out):
         return True
@@ -1394,7 +1399,7 @@ def corpus_all(entry_name):
     return corpus_cases("C12", entry_name)
 
 TRUSTED = [
-    "Coq 8.16.1 kernel (coqc, vm_compute; no native_compute).  The 18 theorems of C12/Properties.v and the 5 of "
+    "Coq 8.16.1 kernel (coqc, vm_compute; no native_compute).  The 19 theorems of C12/Properties.v and the 5 of "
     "C12/TieProperties.v are closed under the global context (no axioms); the 5 of C12/SepProperties.v use only the standard "
     "library's axioms of the reals (ClassicalDedekindReals.sig_forall_dec, sig_not_dec, functional_extensionality_dep, "
     "Classical_Prop.classic); the per-case interval lemmas additionally the primitive-float/int specifications used by Interval",
